@@ -136,3 +136,40 @@ Proof.
   apply (project_scaled_orthogonal r_ops Rth). exact Hn.
 Qed.
 Print Assumptions C18_tangent_unit_orthogonal.
+
+(* ---------------------------------------------------------------- bound sets *)
+(* BoundTriangleSet.generateNormals runs the same computation on the TRANSFORMED vertices
+   (model: gen_normals on [map (R p + t) verts]).  When the bind matrix is a rotation R (right-
+   handed orthonormal columns k0 k1 k2) plus a translation t, the normal it generates for every
+   vertex is R applied to the normal generated on the unbound set - no cached unbound quantity is
+   involved, and the translation does not matter. *)
+Theorem C18_bound_under_rotation : forall (k0 k1 k2 t0 : RV) (verts : list RV) (tris : list tri) v,
+  rotation r_ops k0 k1 k2 ->
+  (forall t, In t tris -> tri_in_range (length verts) t) -> v < length verts ->
+  vnth r_ops (gen_normals r_ops runit (code_accumulate r_ops)
+                          (map (fun p => vadd r_ops (mv r_ops k0 k1 k2 p) t0) verts) tris) v =
+  mv r_ops k0 k1 k2 (vnth r_ops (gen_normals r_ops runit (code_accumulate r_ops) verts tris) v).
+Proof. exact gen_normals_rotation. Qed.
+Print Assumptions C18_bound_under_rotation.
+
+(* a rotation commutes with the cross product and keeps dot products: this is what makes the
+   statement above true, and what fails for non-uniform scales, shears and mirrors *)
+Theorem C18_rotation_cross_dot : forall (o : ops),
+  ring_theory (rO o) (rI o) (radd o) (rmul o) (rsub o) (ropp o) eq ->
+  forall k0 k1 k2 a b, rotation o k0 k1 k2 ->
+  cross o (mv o k0 k1 k2 a) (mv o k0 k1 k2 b) = mv o k0 k1 k2 (cross o a b) /\
+  dot o (mv o k0 k1 k2 a) (mv o k0 k1 k2 b) = dot o a b.
+Proof.
+  intros o Rth k0 k1 k2 a b H. split; [apply (rotation_cross o Rth)|apply (rotation_dot o Rth)]; exact H.
+Qed.
+Print Assumptions C18_rotation_cross_dot.
+
+(* non-vacuity: the quarter turn about z is a rotation; a mirror is not (over Z) *)
+Example C18_rotation_nonvacuous :
+  rotation z_ops (0,1,0)%Z (-1,0,0)%Z (0,0,1)%Z /\
+  mv z_ops (0,1,0)%Z (-1,0,0)%Z (0,0,1)%Z (3,5,7)%Z = (-5,3,7)%Z /\
+  ~ rotation z_ops (1,0,0)%Z (0,1,0)%Z (0,0,-1)%Z.
+Proof.
+  split; [vm_compute; repeat split|]. split; [vm_compute; reflexivity|].
+  intros (H & _). vm_compute in H. discriminate.
+Qed.
